@@ -17,6 +17,17 @@ pub struct C03;
 
 const ID: &str = "C03";
 
+/// Input typed on a terminal: valid UTF-8 (keys are characters), multi-byte characters
+/// included, no NUL (a terminal cannot type it as a character key).
+fn tty_input(rng: &mut Rng) -> Vec<u8> {
+    let n = rng.usize_below(8);
+    let mut s = String::new();
+    for _ in 0..n {
+        s.push(*rng.pick(&['a', 'Z', '7', ' ', '\n', 'é', '😀', '~', '€']));
+    }
+    s.into_bytes()
+}
+
 fn random_input(rng: &mut Rng) -> Vec<u8> {
     let n = match rng.below(6) {
         0 => 0,
@@ -170,7 +181,12 @@ pub fn compare_plain(
         Some(s) => format!("{:?}", s).split('(').next().unwrap().to_string(),
         None => "Budget".into(),
     };
-    if itrace.len() != mtrace.len() || Some(&outcome.end) != expected_end.as_ref() {
+    // On a terminal the input never ends; the simulated user walking away stands for it
+    let walked_away = outcome.end == End::KeysExhausted && mstop == Some(Stop::InputEof);
+    if walked_away {
+        report.hit("fault:terminal_user_walked_away");
+    }
+    if !walked_away && (itrace.len() != mtrace.len() || Some(&outcome.end) != expected_end.as_ref()) {
         // A pending costless stop at the exact budget boundary shows as Fuel in the real system
         let boundary = outcome.end == End::Fuel && msteps == fuel;
         if !boundary {
@@ -220,7 +236,9 @@ pub fn compare_plain(
     }
 
     // ----- input consumption -----
-    if outcome.stdin_pos != io.input_pos {
+    if outcome.keys_read > 0 || walked_away {
+        report.hit("probe:program_input_from_terminal");
+    } else if outcome.stdin_pos != io.input_pos {
         v.push(viol(
             "C03/input/consumed".into(),
             format!("real consumed {} input bytes, reference {}", outcome.stdin_pos, io.input_pos),
@@ -354,12 +372,15 @@ impl Check for C03 {
             tail_beyond_user: false,
         };
         let program = gen::generate(&mut rng, &opts);
+        // One input-reading program in five gets its input from a simulated interactive terminal
+        let tty = opts.allow_input && rng.chance(1, 5);
         J::obj()
             .set("kind", "source")
             .set("program", scn::program_to_json(&program))
             .set("stack", stack)
             .set("minimal", minimal)
-            .set("input", scn::bytes_to_json(&random_input(&mut rng)))
+            .set("input", scn::bytes_to_json(&if tty { tty_input(&mut rng) } else { random_input(&mut rng) }))
+            .set("tty", tty)
             .set("fuel", 50_000u64)
     }
 
@@ -369,6 +390,7 @@ impl Check for C03 {
         let minimal = scenario.get_bool("minimal").unwrap_or(true);
         let input = scn::bytes_from_json(scenario.get("input").unwrap_or(&J::Null));
         let fuel = scenario.get_int("fuel").unwrap_or(50_000) as u64;
+        let tty = scenario.get_bool("tty").unwrap_or(false);
         let (image, raw, prog) = match scenario.get_str("kind") {
             Some("raw") => {
                 let words = scn::words_from_json(scenario.get("words").unwrap_or(&J::Null));
@@ -387,6 +409,18 @@ impl Check for C03 {
             stack,
             minimal,
             debug: None,
+            tty_input: if tty {
+                // The same bytes typed on an interactive terminal: characters as key events
+                // (Enter for a line feed); a terminal never reports end of input
+                Some(
+                    String::from_utf8_lossy(&input)
+                        .chars()
+                        .map(|c| if c == '\n' { crate::world_a::Key2::Enter } else { crate::world_a::Key2::Char(c) })
+                        .collect(),
+                )
+            } else {
+                None
+            },
             stdin: input.clone(),
             fuel,
             max_idle: u64::MAX,
